@@ -113,6 +113,83 @@ func evalParamFuncW(w *World, fn *ssa.Function, k constant.Value, other bool) ([
 		}
 		return c.Value, true
 	}
+	// numeric view of the key: the constant, or - for "none of the constants" - a value above every index and constant
+	// the function mentions
+	keyNum := func() (int64, bool) {
+		if other || k == nil {
+			return 1 << 40, true
+		}
+		if k.Kind() != constant.Int {
+			return 0, false
+		}
+		n, exact := constant.Int64Val(k)
+		return n, exact
+	}
+	isParamNum := func(v ssa.Value) bool {
+		for i := 0; i < 3; i++ {
+			v = throughCell(strip(v))
+			if v == param {
+				return true
+			}
+			cv, ok := v.(*ssa.Convert)
+			if !ok {
+				return false
+			}
+			v = cv.X
+		}
+		return false
+	}
+	// arrayElem: v is table[param] with table a package-level array literal that is never written: the element for the
+	// key (nil: the zero value), and whether the key is inside the array
+	arrayElem := func(v ssa.Value) (elem ssa.Value, inRange, ok bool) {
+		ld, isLd := throughCell(strip(v)).(*ssa.UnOp)
+		if w == nil || !isLd || ld.Op != token.MUL {
+			return nil, false, false
+		}
+		ia, isIA := ld.X.(*ssa.IndexAddr)
+		if !isIA || !isParamNum(ia.Index) {
+			return nil, false, false
+		}
+		g, isG := ia.X.(*ssa.Global)
+		if !isG {
+			return nil, false, false
+		}
+		entries, n, okE := w.arrayLiteralEntries(g)
+		if !okE {
+			return nil, false, false
+		}
+		kn, okN := keyNum()
+		if !okN {
+			return nil, false, false
+		}
+		if kn < 0 || kn >= n {
+			return nil, false, true
+		}
+		return entries[kn], true, true
+	}
+	numOf := func(v ssa.Value) (int64, bool) {
+		if isParamNum(v) {
+			return keyNum()
+		}
+		if n, ok := intConst(v); ok {
+			return n, true
+		}
+		if la := lenArg(throughCell(strip(v))); la != nil && w != nil {
+			if ld, isLd := throughCell(strip(la)).(*ssa.UnOp); isLd {
+				if g, isG := ld.X.(*ssa.Global); isG {
+					if _, n, ok := w.arrayLiteralEntries(g); ok {
+						return n, true
+					}
+				}
+			}
+			if g, isG := la.(*ssa.Global); isG {
+				if _, n, ok := w.arrayLiteralEntries(g); ok {
+					return n, true
+				}
+			}
+		}
+		return 0, false
+	}
 	var evalCond func(v ssa.Value, depth int) (bool, bool)
 	evalCond = func(v ssa.Value, depth int) (bool, bool) {
 		if depth > 8 {
@@ -133,8 +210,50 @@ func evalParamFuncW(w *World, fn *ssa.Function, k constant.Value, other bool) ([
 				return !b, ok
 			}
 		case *ssa.BinOp:
+			switch x.Op {
+			case token.LSS, token.LEQ, token.GTR, token.GEQ:
+				// the key as a number against a constant or the length of a frozen table
+				a, okA := numOf(x.X)
+				b, okB := numOf(x.Y)
+				if !okA || !okB || (!isParamNum(x.X) && !isParamNum(x.Y)) {
+					return false, false
+				}
+				switch x.Op {
+				case token.LSS:
+					return a < b, true
+				case token.LEQ:
+					return a <= b, true
+				case token.GTR:
+					return a > b, true
+				}
+				return a >= b, true
+			}
 			if x.Op != token.EQL && x.Op != token.NEQ {
 				return false, false
+			}
+			// table[key] compared with a constant
+			for _, pair := range [][2]ssa.Value{{x.X, x.Y}, {x.Y, x.X}} {
+				if elem, inRange, ok := arrayElem(pair[0]); ok && inRange {
+					kc, isK := constOf(pair[1])
+					if !isK {
+						return false, false
+					}
+					var ev constant.Value = constant.MakeString("")
+					if elem != nil {
+						ec, isC := constOf(elem)
+						if !isC {
+							return false, false
+						}
+						ev = ec
+					} else if kc.Kind() != constant.String {
+						return false, false
+					}
+					eq := ev.Kind() == kc.Kind() && constant.Compare(ev, token.EQL, kc)
+					if x.Op == token.NEQ {
+						return !eq, true
+					}
+					return eq, true
+				}
 			}
 			a, b := x.X, x.Y
 			if isParamView(b, param) {
@@ -185,6 +304,8 @@ func evalParamFuncW(w *World, fn *ssa.Function, k constant.Value, other bool) ([
 					if val, _, ok := lookupEntry(lk); ok {
 						rv = val
 					}
+				} else if elem, inRange, ok := arrayElem(rv); ok && inRange {
+					rv = elem
 				}
 				out[i] = rv
 			}
@@ -693,4 +814,69 @@ func (w *World) projReads(rec ssa.Value, field int, depth int, seen map[ssa.Valu
 		}
 	}
 	return out
+}
+
+// arrayLiteralEntries: the elements of the package-level array g set by its literal (index -> value; absent: zero
+// value) and its length, when g is written nowhere else (no element store outside the initialiser, address not
+// handed out).
+func (w *World) arrayLiteralEntries(g *ssa.Global) (map[int64]ssa.Value, int64, bool) {
+	arr, ok := g.Type().(*types.Pointer).Elem().Underlying().(*types.Array)
+	if !ok || g.Pkg == nil {
+		return nil, 0, false
+	}
+	init := g.Pkg.Func("init")
+	if init == nil {
+		return nil, 0, false
+	}
+	out := map[int64]ssa.Value{}
+	for _, fn := range w.repoFns {
+		for _, b := range fn.Blocks {
+			for _, ins := range b.Instrs {
+				switch x := ins.(type) {
+				case *ssa.IndexAddr:
+					if x.X != ssa.Value(g) || x.Referrers() == nil {
+						continue
+					}
+					for _, r := range *x.Referrers() {
+						st, isSt := r.(*ssa.Store)
+						if !isSt || st.Addr != ssa.Value(x) {
+							if _, isLd := r.(*ssa.UnOp); isLd {
+								continue
+							}
+							if _, isDbg := r.(*ssa.DebugRef); isDbg {
+								continue
+							}
+							return nil, 0, false
+						}
+						k, isK := intConst(x.Index)
+						if fn != init || !isK {
+							return nil, 0, false
+						}
+						if _, dup := out[k]; dup {
+							return nil, 0, false
+						}
+						out[k] = st.Val
+					}
+				case *ssa.Store:
+					if x.Addr == ssa.Value(g) && fn != init {
+						return nil, 0, false
+					}
+					if x.Val == ssa.Value(g) {
+						return nil, 0, false
+					}
+				case ssa.CallInstruction:
+					for _, a := range x.Common().Args {
+						if a == ssa.Value(g) {
+							return nil, 0, false
+						}
+					}
+				case *ssa.Slice:
+					if x.X == ssa.Value(g) {
+						return nil, 0, false
+					}
+				}
+			}
+		}
+	}
+	return out, arr.Len(), true
 }
